@@ -1,0 +1,252 @@
+//! Synchronization shim. Only compiled with feature `verif`.
+//!
+//! Two personalities:
+//!
+//! * `verif`: std types. Timed waits and sleeps optionally run in virtual time
+//!   (see [`crate::verif::set_virtual_time`]).
+//! * `verif-shuttle`: shuttle types, so that a controlled scheduler decides
+//!   every interleaving. Timed waits block for real (in shuttle terms), and are
+//!   registered in a table so that a harness "clock" can time them out.
+
+#[cfg(not(feature = "verif-shuttle"))]
+mod imp {
+    pub use std::sync::{LockResult, Mutex, MutexGuard, PoisonError};
+
+    /// Condvar with the subset of the std API that the crate uses.
+    #[derive(Debug, Default)]
+    pub struct Condvar(std::sync::Condvar);
+
+    impl Condvar {
+        /// Create new condvar.
+        pub const fn new() -> Self {
+            Self(std::sync::Condvar::new())
+        }
+        /// See std.
+        pub fn notify_all(&self) {
+            self.0.notify_all();
+        }
+        /// See std. Second part of the return value is true if timed out.
+        pub fn wait_timeout_while<'a, T, F>(
+            &self,
+            mut guard: MutexGuard<'a, T>,
+            dur: std::time::Duration,
+            mut condition: F,
+        ) -> LockResult<(MutexGuard<'a, T>, bool)>
+        where
+            F: FnMut(&mut T) -> bool,
+        {
+            if crate::verif::virtual_time() {
+                let timed_out = condition(&mut *guard);
+                return Ok((guard, timed_out));
+            }
+            match self.0.wait_timeout_while(guard, dur, condition) {
+                Ok((g, r)) => Ok((g, r.timed_out())),
+                Err(e) => {
+                    let (g, r) = e.into_inner();
+                    Err(PoisonError::new((g, r.timed_out())))
+                }
+            }
+        }
+    }
+
+    /// Scheduling point. No-op in this personality.
+    #[inline]
+    pub fn point() {}
+
+    /// Stand-in for `std`, for code that names `std::thread` directly.
+    pub mod stdshim {
+        pub use std::time;
+        /// Threads.
+        pub mod thread {
+            pub use std::thread::Builder;
+            /// Sleep, unless in virtual time.
+            pub fn sleep(dur: std::time::Duration) {
+                if !crate::verif::virtual_time() {
+                    std::thread::sleep(dur);
+                }
+            }
+        }
+    }
+}
+
+#[cfg(feature = "verif-shuttle")]
+mod imp {
+    pub use std::sync::{LockResult, PoisonError};
+    use std::sync::Arc;
+    use std::sync::atomic::{AtomicBool, AtomicU64, Ordering};
+
+    /// Mutex with a scheduling point before lock, before unlock (both from
+    /// shuttle), and after unlock (added here, so that what a thread does
+    /// right after leaving a critical section can be reordered with other
+    /// threads entering it).
+    pub struct Mutex<T>(shuttle::sync::Mutex<T>);
+
+    impl<T> std::fmt::Debug for Mutex<T> {
+        fn fmt(&self, f: &mut std::fmt::Formatter<'_>) -> std::fmt::Result {
+            write!(f, "Mutex")
+        }
+    }
+
+    impl<T> Mutex<T> {
+        /// Create new mutex.
+        pub fn new(t: T) -> Self {
+            Self(shuttle::sync::Mutex::new(t))
+        }
+        /// See std.
+        pub fn lock(&self) -> LockResult<MutexGuard<'_, T>> {
+            match self.0.lock() {
+                Ok(g) => Ok(MutexGuard(Some(g))),
+                Err(e) => Err(PoisonError::new(MutexGuard(Some(e.into_inner())))),
+            }
+        }
+    }
+
+    /// Guard for [`Mutex`].
+    pub struct MutexGuard<'a, T>(Option<shuttle::sync::MutexGuard<'a, T>>);
+
+    impl<T> std::ops::Deref for MutexGuard<'_, T> {
+        type Target = T;
+        fn deref(&self) -> &T {
+            self.0.as_ref().unwrap()
+        }
+    }
+
+    impl<T> std::ops::DerefMut for MutexGuard<'_, T> {
+        fn deref_mut(&mut self) -> &mut T {
+            self.0.as_mut().unwrap()
+        }
+    }
+
+    impl<T> Drop for MutexGuard<'_, T> {
+        fn drop(&mut self) {
+            if let Some(g) = self.0.take() {
+                drop(g);
+                if !std::thread::panicking() {
+                    shuttle::thread::yield_now();
+                }
+            }
+        }
+    }
+
+    /// A task blocked in a timed wait.
+    #[derive(Clone, Debug)]
+    pub struct TimedWaiter {
+        /// Arrival order. Lower means has waited longer.
+        pub seq: u64,
+        fired: Arc<AtomicBool>,
+        cv: Arc<shuttle::sync::Condvar>,
+    }
+
+    impl TimedWaiter {
+        /// Time this waiter out. Contains a scheduling point.
+        pub fn fire(&self) {
+            self.fired.store(true, Ordering::SeqCst);
+            self.cv.notify_all();
+        }
+    }
+
+    static SEQ: AtomicU64 = AtomicU64::new(0);
+    static WAITERS: std::sync::Mutex<Vec<TimedWaiter>> = std::sync::Mutex::new(Vec::new());
+
+    /// Tasks currently blocked in a timed wait, longest waiting first.
+    pub fn timed_waiters() -> Vec<TimedWaiter> {
+        let mut v = WAITERS.lock().unwrap().clone();
+        v.sort_by_key(|w| w.seq);
+        v
+    }
+
+    /// Number of tasks currently blocked in a timed wait.
+    pub fn timed_waiter_count() -> usize {
+        WAITERS.lock().unwrap().len()
+    }
+
+    /// Forget all waiters. Call between executions.
+    pub fn reset_timed_waiters() {
+        WAITERS.lock().unwrap().clear();
+        SEQ.store(0, Ordering::SeqCst);
+    }
+
+    /// Condvar with the subset of the std API that the crate uses.
+    #[derive(Debug)]
+    pub struct Condvar(Arc<shuttle::sync::Condvar>);
+
+    impl Default for Condvar {
+        fn default() -> Self {
+            Self::new()
+        }
+    }
+
+    impl Condvar {
+        /// Create new condvar.
+        pub fn new() -> Self {
+            Self(Arc::new(shuttle::sync::Condvar::new()))
+        }
+        /// See std.
+        pub fn notify_all(&self) {
+            self.0.notify_all();
+        }
+        /// See std. Second part of the return value is true if timed out.
+        pub fn wait_timeout_while<'a, T, F>(
+            &self,
+            mut guard: MutexGuard<'a, T>,
+            _dur: std::time::Duration,
+            mut condition: F,
+        ) -> LockResult<(MutexGuard<'a, T>, bool)>
+        where
+            F: FnMut(&mut T) -> bool,
+        {
+            if !condition(&mut *guard) {
+                return Ok((guard, false));
+            }
+            let me = TimedWaiter {
+                seq: SEQ.fetch_add(1, Ordering::SeqCst),
+                fired: Arc::new(AtomicBool::new(false)),
+                cv: self.0.clone(),
+            };
+            WAITERS.lock().unwrap().push(me.clone());
+            let unregister = |seq: u64| WAITERS.lock().unwrap().retain(|w| w.seq != seq);
+            loop {
+                let inner = guard.0.take().unwrap();
+                guard = match self.0.wait(inner) {
+                    Ok(g) => MutexGuard(Some(g)),
+                    Err(e) => {
+                        unregister(me.seq);
+                        return Err(PoisonError::new((
+                            MutexGuard(Some(e.into_inner())),
+                            false,
+                        )));
+                    }
+                };
+                if !condition(&mut *guard) {
+                    unregister(me.seq);
+                    return Ok((guard, false));
+                }
+                if me.fired.load(Ordering::SeqCst) {
+                    unregister(me.seq);
+                    return Ok((guard, true));
+                }
+            }
+        }
+    }
+
+    /// Scheduling point.
+    #[inline]
+    pub fn point() {
+        shuttle::thread::yield_now();
+    }
+
+    /// Stand-in for `std`, for code that names `std::thread` directly.
+    pub mod stdshim {
+        pub use std::time;
+        /// Threads.
+        pub mod thread {
+            pub use shuttle::thread::Builder;
+            /// Sleep is just a scheduling point.
+            pub fn sleep(_dur: std::time::Duration) {
+                shuttle::thread::yield_now();
+            }
+        }
+    }
+}
+
+pub use imp::*;
